@@ -22,38 +22,43 @@ def run_props(dst, props):
         out[prop] = sorted({i["key"] for i in rep.instances if not i["ok"]})
     return out
 
-idx = json.load(open(os.path.join(MUT_DIR, "index.json")))
-only = sys.argv[1:]
-base = run_props("/repo", sorted({p for m in idx for p in m["properties"]}))
-print("baseline violations:", {k: v for k, v in base.items() if v})
-bad = 0
-for m in idx:
-    if only and not any(o in m["id"] for o in only):
-        continue
-    d, dst = make_scratch()
-    try:
-        ok, out = apply_diff(dst, os.path.join(MUT_DIR, m["file"]))
-        if not ok:
-            print("SKIP  %-55s diff does not apply" % m["id"]); bad += 1; continue
+def main():
+    idx = json.load(open(os.path.join(MUT_DIR, "index.json")))
+    only = sys.argv[1:]
+    base = run_props("/repo", sorted({p for m in idx for p in m["properties"]}))
+    print("baseline violations:", {k: v for k, v in base.items() if v})
+    bad = 0
+    for m in idx:
+        if only and not any(o in m["id"] for o in only):
+            continue
+        d, dst = make_scratch()
         try:
-            res = run_props(dst, m["properties"])
-        except SystemExit as e:
-            print("NOBUILD %-53s %s" % (m["id"], e)); bad += 1; continue
-        for prop, v in res.items():
-            added = sorted(set(v) - set(base[prop]))
-            if m.get("silent"):
-                st = "ok-silent" if not added else "FALSE-ALARM"
-            else:
-                exp = [e for e in m.get("expect", []) if e.startswith(prop + ":")]
-                if exp:
-                    st = "caught" if all(any(a.startswith(e) for a in added) for e in exp) else ("caught(other key)" if added else "MISSED")
+            ok, out = apply_diff(dst, os.path.join(MUT_DIR, m["file"]))
+            if not ok:
+                print("SKIP  %-55s diff does not apply" % m["id"]); bad += 1; continue
+            try:
+                res = run_props(dst, m["properties"])
+            except SystemExit as e:
+                print("NOBUILD %-53s %s" % (m["id"], e)); bad += 1; continue
+            for prop, v in res.items():
+                added = sorted(set(v) - set(base[prop]))
+                if m.get("silent"):
+                    st = "ok-silent" if not added else "FALSE-ALARM"
                 else:
-                    st = "caught" if added else "MISSED"
-                if st == "MISSED" and m.get("known_miss"):
-                    st = "known-miss"
-            if st in ("MISSED", "FALSE-ALARM"):
-                bad += 1
-            print("%-18s %-4s %-55s %s" % (st, prop, m["id"], added[:2]))
-    finally:
-        shutil.rmtree(d, ignore_errors=True)
-print("problems:", bad)
+                    exp = [e for e in m.get("expect", []) if e.startswith(prop + ":")]
+                    if exp:
+                        st = "caught" if all(any(a.startswith(e) for a in added) for e in exp) else ("caught(other key)" if added else "MISSED")
+                    else:
+                        st = "caught" if added else "MISSED"
+                    if st == "MISSED" and m.get("known_miss"):
+                        st = "known-miss"
+                if st in ("MISSED", "FALSE-ALARM"):
+                    bad += 1
+                print("%-18s %-4s %-55s %s" % (st, prop, m["id"], added[:2]))
+        finally:
+            shutil.rmtree(d, ignore_errors=True)
+    print("problems:", bad)
+
+
+if __name__ == "__main__":
+    main()
